@@ -122,6 +122,7 @@ func (cj *CookieJar) Set(uri *fasthttp.URI, cookies ...*fasthttp.Cookie) {
 //
 // CookieJar stores copies of the provided cookies, so they may be safely released after use.
 func (cj *CookieJar) SetByHost(host []byte, cookies ...*fasthttp.Cookie) {
+	host = hostWithoutPort(host)
 	hostStr := utils.UnsafeString(host)
 
 	cj.mu.Lock()
@@ -182,6 +183,7 @@ func (cj *CookieJar) dumpCookiesToReq(req *fasthttp.Request) {
 
 // parseCookiesFromResp parses the cookies from the response and stores them for the specified host and path.
 func (cj *CookieJar) parseCookiesFromResp(host, path []byte, resp *fasthttp.Response) {
+	host = hostWithoutPort(host)
 	hostStr := utils.UnsafeString(host)
 
 	cj.mu.Lock()
@@ -213,6 +215,15 @@ func (cj *CookieJar) parseCookiesFromResp(host, path []byte, resp *fasthttp.Resp
 		}
 	})
 	cj.hostCookies[hostStr] = cookies
+}
+
+// hostWithoutPort returns the host part of host[:port]. Cookies are looked up
+// by host name only, so they have to be stored under it as well.
+func hostWithoutPort(host []byte) []byte {
+	if h, _, err := net.SplitHostPort(utils.UnsafeString(host)); err == nil {
+		return utils.UnsafeBytes(h)
+	}
+	return host
 }
 
 // Release releases all stored cookies. After this, the CookieJar is empty.
